@@ -140,6 +140,16 @@ def iso_order(tier, seed):
             "cases": n, "detail": repr(bad[:3])}
 
 
+def numpy_io(tier, seed):
+    import subprocess
+    p = subprocess.run(["/venv/bin/python", os.path.join(os.path.dirname(os.path.dirname(os.path.abspath(__file__))), "native", "validate_numpyio.py"), tier, str(seed)],
+                       capture_output=True, text=True, cwd="/repo", env=dict(os.environ, PYTHONPATH=os.environ.get("PYVC_REPO", "/repo"), PYTHONWARNINGS="ignore"))
+    lines = [l for l in p.stdout.splitlines() if l.startswith("{")]
+    if p.returncode != 0 or not lines:
+        return {"name": "numpy io", "ok": False, "cases": 0, "detail": (p.stderr or p.stdout)[-500:]}
+    return json.loads(lines[-1])
+
+
 def numpy_axioms(tier, seed):
     """runs native/validate_numpy.py under /venv/bin/python (numpy lives there)"""
     import subprocess
@@ -153,5 +163,5 @@ def numpy_axioms(tier, seed):
 
 if __name__ == "__main__":
     which, tier, seed = sys.argv[1], sys.argv[2], int(sys.argv[3])
-    fn = {"calendar": calendar_vs_datetime, "z3cal": z3_vs_calmodel, "extmodel": extmodel_vs_calmodel, "isoorder": iso_order, "numpy": numpy_axioms}[which]
+    fn = {"calendar": calendar_vs_datetime, "z3cal": z3_vs_calmodel, "extmodel": extmodel_vs_calmodel, "isoorder": iso_order, "numpy": numpy_axioms, "numpyio": numpy_io}[which]
     print(json.dumps(fn(tier, seed)))
